@@ -34,6 +34,9 @@ type vgOp struct {
 	Advance int     `json:"advance_s,omitempty"` // simulated seconds that pass before this operation
 	C       int     `json:"c,omitempty"`         // issuing client (interleaved runs)
 	DelayMs int     `json:"signer_delay_ms,omitempty"` // simulated latency of the signing device
+	// Reuse: once the update has been produced the caller changes the object it passed as payload (it prepares
+	// the next update in the same value). The update already handed out is a value of its own.
+	Reuse bool `json:"caller_reuses_payload,omitempty"`
 }
 
 type varsignEngine struct{ tz bool }
@@ -162,9 +165,12 @@ func genVgOp(r *R) vgOp {
 		if r.Chance(1, 12) {
 			op.Key = 18 // SignedData larger than 65535 bytes
 		}
+	case 3:
+		op.Key = 19 + r.Intn(2) // certificates whose validity begins and ends inside the simulated time span
 	default:
 		op.Key = r.Intn(2) // mostly the cheap self-signed 2048-bit keys
 	}
+	op.Reuse = r.Chance(1, 3)
 	op.Op = "SignEFIVariable"
 	if r.Bool() {
 		op.Op = "WriteSignedUpdate"
@@ -205,6 +211,19 @@ func (e *varsignEngine) Gen(seed uint64, tier string, run int) *Trace {
 			op.C = i % c.Clients
 		}
 		ops = append(ops, op)
+	}
+	// a signer certificate with a short validity: put the clock close to (but inside) an edge of its window
+	if k := ops[0].Key; k >= 19 && k < poolAll && r.Chance(2, 3) {
+		cert := Pool()[k].Cert
+		d := time.Duration(Pick(r, []int{1, 59, 600, 1799, 1800, 3599, 3600, 2*3600 + 1, 5*3600 + 1800, 9 * 3600, 12 * 3600, 14*3600 - 1, r.Intn(14 * 3600)})) * time.Second
+		edge := cert.NotBefore.Add(d)
+		if r.Bool() {
+			edge = cert.NotAfter.Add(-d)
+		}
+		c.Instant = edge.UTC().Format(time.RFC3339)
+		for i := range ops {
+			ops[i].Advance, ops[i].DelayMs = 0, 0
+		}
 	}
 	var sw []Switch
 	if c.Clients > 1 {
@@ -324,7 +343,7 @@ func (e *varsignEngine) Exec(tr *Trace, x *X) {
 func vgExec(c vgCfg, op vgOp, i int, plane *Plane, x *X) (interface{ Bytes() []byte }, []byte) {
 	v := op.Var.Var()
 	payload := op.Val.Bytes()
-	pk := Pool()[op.Key%poolSize]
+	pk := Pool()[op.Key%poolAll]
 	kind := op.Op
 	signer := &SimSigner{inner: pk.Key, p: plane, Delay: time.Duration(op.DelayMs) * time.Millisecond}
 	at := time.Now().UTC()
@@ -351,8 +370,17 @@ func vgExec(c vgCfg, op vgOp, i int, plane *Plane, x *X) (interface{ Bytes() []b
 		defer func() { pv = recover() }()
 		switch op.Op {
 		case "SignEFIVariable":
-			_, mm, e2 := signature.SignEFIVariable(v, rawVal(payload), signer, pk.Cert)
+			mine := &mutVal{b: append([]byte(nil), payload...)}
+			_, mm, e2 := signature.SignEFIVariable(v, mine, signer, pk.Cert)
 			err = e2
+			if mm != nil && op.Reuse {
+				// the caller goes on working with its own object: the next update is prepared in it
+				for k := range mine.b {
+					mine.b[k] ^= 0x5a
+				}
+				mine.b = append(mine.b, "next entry"...)
+				x.Probe("caller_reuses_payload_object")
+			}
 			if mm != nil {
 				keep = mm
 				out = mm.Bytes()
@@ -487,6 +515,20 @@ func vgExec(c vgCfg, op vgOp, i int, plane *Plane, x *X) (interface{ Bytes() []b
 		_ = c
 		fail("varsign.signature_binds_variable", "independent verification over name||GUID||attributes||timestamp||payload failed: %v", err)
 		return nil, nil
+	}
+	// a verifier that is strict about time: when the clock was inside the validity window of the signer certificate
+	// during the whole call, whatever signing time the SignedData claims has to be inside it as well
+	if at.After(pk.Cert.NotBefore) && end.Before(pk.Cert.NotAfter) {
+		if pk.Cert.NotBefore.After(bubbleEpoch) {
+			x.Probe("short_validity_signer")
+			if at.Sub(pk.Cert.NotBefore) < 14*time.Hour || pk.Cert.NotAfter.Sub(end) < 14*time.Hour {
+				x.Probe("clock_near_validity_edge")
+			}
+		}
+		if err := refCMSStrictTime(cms, pk.Cert); err != nil {
+			fail("varsign.strict_verifier_accepts", "the simulated clock was %s .. %s UTC, inside the validity of the signer certificate, but %v (process zone %s%+ds)", at.Format(time.RFC3339), end.Format("15:04:05"), err, zname, zoff)
+			return nil, nil
+		}
 	}
 	x.State(h64(c.Zone, at.Unix()/86400))
 	return keep, append([]byte(nil), out...)
